@@ -109,6 +109,40 @@ def fix(v):
     return NULL if v is None else v
 
 
+def _spellings(sql, rend=None):
+    """The same target named in another way (the alias, a sqlalchemy dialect class, mssql / oracle too): the rendering must be
+    the same text as for the dialect's name."""
+    import importlib
+    from mindsdb_sql import parse_sql
+    from mindsdb_sql.render.sqlalchemy_render import SqlalchemyRender
+
+    def one(arg):
+        try:
+            return SqlalchemyRender(arg).get_string(parse_sql(sql, 'mindsdb'), with_failback=False)
+        except Exception as e:   # noqa
+            return 'EXC:' + type(e).__name__
+    rend = dict(rend or {})
+    alt = {}
+    for d, spelled in (('mysql', 'class:mysql'), ('postgresql', 'postgres'), ('postgresql', 'class:postgresql'), ('sqlite', 'class:sqlite'),
+                       ('mssql', 'class:mssql'), ('oracle', 'class:oracle')):
+        if rend.get(d) is None:
+            rend[d] = one(d)
+        t_ = one(importlib.import_module('sqlalchemy.dialects.' + spelled[6:]).dialect if spelled.startswith('class:') else spelled)
+        if t_ != rend[d]:
+            alt[spelled] = [rend[d], t_]
+    return rend, alt
+
+
+TYPES = ['int', 'integer', 'bigint', 'smallint', 'float', 'double', 'real', 'decimal', 'numeric', 'char', 'varchar', 'text', 'date', 'datetime',
+         'timestamp', 'time', 'boolean', 'bool', 'int8', 'float8', 'signed', 'unsigned', 'binary', 'json']
+SPELLING_STMTS = ['select cast(a as %s) from t1' % t_ for t_ in TYPES] + ['select a::%s from t1' % t_ for t_ in TYPES[:12]] + [
+    'insert into t1 (a, b) values (1, 2), (2, 3), (3, 4)', 'select a from t1 limit 2 offset 1', 'select a from t1 order by a nulls first limit 1',
+    'select a, count(*) from t1 group by a having count(*) > 1', 'select a from t1 where b like \'a%\'', 'select cast(a as float) / 2 from t1',
+    'select a from t1 where a in (select a from t2) limit 1', 'select distinct a from t1 order by a desc',
+    'create table t9 (a int, b float, c text, d date)', 'select coalesce(a, 0), length(\'x\'), round(b) from t1',
+    'update t1 set a = cast(b as float) where b = 1', 'delete from t1 where a = 1']
+
+
 def _render(sql):
     from mindsdb_sql import parse_sql
     from mindsdb_sql.render.sqlalchemy_render import SqlalchemyRender
@@ -125,6 +159,7 @@ def _render(sql):
             out['orig'] = sem.query(tree)
     except sem.Unsupported as e:
         out['status'] = 'unsupported:%s' % e
+        out['spelling_diffs'] = _spellings(sql)[1]
         return out
     rend = {}
     for d in ('sqlite', 'mysql', 'postgresql'):
@@ -133,6 +168,7 @@ def _render(sql):
         except Exception as e:   # noqa
             rend[d] = None
             out.setdefault('render_errors', {})[d] = '%s: %s' % (type(e).__name__, str(e)[:100])
+    out['spelling_diffs'] = _spellings(sql, rend)[1]
     out['rendered'] = rend
     out['status'] = 'ok' if rend.get('sqlite') else 'not-rendered'
     return out
@@ -181,6 +217,7 @@ def run(ctx):
         if two.search(q):
             for gap in ('  ', '\n\t', ' \t '):
                 stmts.append(two.sub(lambda m_: m_.group(1).replace(' ', gap), q))
+    stmts = stmts + [q for q in SPELLING_STMTS if q not in stmts]
     rendered = pmap(_render, stmts, chunksize=8)
     tables = [{'db': 'main', 'name': n, 'cols': c} for n, c in SCHEMA.items()]
     obs, meta = [], []
@@ -190,6 +227,10 @@ def run(ctx):
     for r in rendered:
         st = r['status'].split(':')[0]
         status[st] = status.get(st, 0) + 1
+        for spelled, (t_name, t_alt) in (r.get('spelling_diffs') or {}).items():
+            ctx.violation('rendering-depends-on-how-the-dialect-is-named:%s' % spelled,
+                          'the renderer built from an alias / a dialect class renders another text than the one built from the dialect\'s name',
+                          {'sql': r['sql'], 'by_name': t_name, 'by_other_spelling': t_alt, 'spelling': spelled})
         if st != 'ok':
             continue
         # other targets: same text up to quoting (no engine offline)
